@@ -59,7 +59,7 @@ def gen_history(rng, scn, length=6, p_fault=0.35, p_dry=0.12, p_render=0.08, max
             "single_as_node": rng.random() < 0.5,
             "fresh_r": rng.random(),
             "obs": rng.choice([None, "rec", "rec", "composite"]),
-            "tp": rng.random() < 0.25,
+            "tp": rng.choice([False, False, False, True, "copy"]),
             "retry": rng.choice([None, None, None, 2, 3]),
             "scw": rng.choice([None, None, 1, 2]),
             "slow": rng.choice([0, 0, 0, 0.0003]),
@@ -115,6 +115,8 @@ def project_physical(U, phys):
         if type(nd) is not Call:
             opof[nd] = ["other", 0]
             continue
+        if nd.fn is _tp_marker:
+            continue  # the call a copy-returning transform_physical added: not part of the registry transformation
         c = getattr(nd.fn, "_vf_call", None)
         if c is not None:
             opof[nd] = ["call", c]
@@ -140,6 +142,10 @@ def project_physical(U, phys):
         ops.append(op)
         anc.append(sorted(opof[a] for a in nx.ancestors(g, nd) if a in opof))
     return ops, anc
+
+
+def _tp_marker():
+    return None
 
 
 def make_observer(sink, lock):
@@ -173,7 +179,7 @@ def make_observer(sink, lock):
     return Rec()
 
 
-def progress_trace(U, scn, notes, notes2, run_events, ok, clean, ngather):
+def progress_trace(U, scn, notes, notes2, run_events, ok, clean, ngather, nextra=0):
     """The ProgressTrace.tla record of one run: notifications with scopes numbered per (section,
     scope tuple), and the harness's account of what executed."""
     ids = {}
@@ -199,7 +205,7 @@ def progress_trace(U, scn, notes, notes2, run_events, ok, clean, ngather):
     exp = [[sid("run", lab), c] for lab, c in sorted(per_label.items(), key=repr)]
     nops = len(starts) + len({(e["e"], e["n"]) for e in run_events if e["e"] in ("read", "write")})
     ncalls = sum(1 for k in scn["kind"] if k == "call")
-    ev.append({"e": "summary", "sec": "", "sc": 0, "amt": 0, "clean": clean, "ok": ok, "exp": exp, "runcalls": nops + ngather,
+    ev.append({"e": "summary", "sec": "", "sc": 0, "amt": 0, "clean": clean, "ok": ok, "exp": exp, "runcalls": nops + ngather + nextra,
                "stalecalls": ncalls + ngather, "members_equal": notes2 is None or notes2 == notes})
     for e in ev:
         e.setdefault("ok", False)
@@ -280,11 +286,17 @@ def run_history(task):
         if st.get("tp"):
             def tp(plan_, node_):
                 tp_calls.append(1)
+                if st["tp"] == "copy":
+                    # a transformation may return a different Plan object with different calls in it
+                    plan_ = plan_.copy()
+                    with plan_.scope("transformed"):
+                        plan_.call(_tp_marker)
                 plan_.graph.graph["vf_tp"] = True
                 return plan_, node_
 
             kw["transform_physical"] = tp
-        ngather = 1 if (out and not single) else 0
+        ngather = (1 if (out and not single) else 0)
+        nextra = 1 if st.get("tp") == "copy" else 0  # the call the transformation added to the physical plan
         nthreads0 = threading.active_count()
         d0 = U.digest()
         if op == "dry":
@@ -347,7 +359,7 @@ def run_history(task):
             if not any(e["e"] in FAIL_EVENTS for e in U.events[mark:]):
                 info["unexpected"].append({"where": "run", "exc": repr(exc)[:300], "step": st})
         if st.get("obs"):
-            pt = progress_trace(U, scn, notes, notes2, U.events[mark:], ok, not U.dead, ngather)
+            pt = progress_trace(U, scn, notes, notes2, U.events[mark:], ok, not U.dead, ngather, nextra)
             if pt:
                 ptraces.append(pt)
         if st.get("tp") and ok and len(tp_calls) != 1:
